@@ -75,12 +75,15 @@ def direct(chk, p, real):
         chk.violation("impl-violates-spec", "direct", p, impl={"out": out[:2000]}, note="; ".join(problems[:3]) + " || " + " || ".join(rc.describe(p)))
 
 
-def run_depth(chk, depths):
+def run_depth(chk, depths, looped=False):
     for d in depths:
         lib = []
         for i in range(d):
-            lib.append({"name": "k%d" % i, "data": [],
-                        "template": [{"t": "comp", "name": "k%d" % (i + 1), "kwargs": [], "only": False, "dyn": False, "body": []}]})
+            inner = {"t": "comp", "name": "k%d" % (i + 1), "kwargs": [], "only": False, "dyn": False, "body": []}
+            if looped:
+                # every level renders its child from inside a {% for %}: forloop.parentloop chains grow with the depth
+                inner = {"t": "for", "x": "v", "e": tplgen.lit("o"), "body": [inner]}
+            lib.append({"name": "k%d" % i, "data": [], "template": [inner]})
         lib.append({"name": "k%d" % d, "data": [], "template": [{"t": "elem", "tag": "div", "body": [{"t": "text", "s": "x"}]},
                                                               {"t": "text", "s": "t"}]})
         for isolated in (True, False):
@@ -88,8 +91,8 @@ def run_depth(chk, depths):
                  "entry": {"page": [{"t": "comp", "name": "k0", "kwargs": [], "only": False, "dyn": False, "body": []}]}}
             tplgen.MAX_INST_SAVE = tplgen.MAX_INST
             real = run_uncapped(p)
-            chk.count("depth/%d" % d, 1, validated=1)
-            chk.branch(["chain_depth:%d" % d])
+            chk.count("depth%s/%d" % ("-looped" if looped else "", d), 1, validated=1)
+            chk.branch(["chain_depth%s:%d" % ("-looped" if looped else "", d)])
             if real["err"] is not None:
                 chk.violation("impl-violates-spec", "depth", {"depth": d, "isolated": isolated}, impl={"err": real["err"], "exc": repr(real["exc"])[:300]},
                               note="a chain of %d components that are each other's root does not render" % d)
@@ -124,6 +127,7 @@ def run(tier: str) -> int:
     n = 600 if tier == "quick" else 12000
     run_programs(chk, n)
     run_depth(chk, [3, 50, 500] if tier == "quick" else [3, 50, 500, 2000])
+    run_depth(chk, [3, 1100] if tier == "quick" else [3, 50, 1100, 2000], looped=True)
     chk.assumptions += [
         "templates produce well-nested elements (elements are AST nodes); no void / self-closing elements; "
         "set_html_attributes (Rust) is modelled on the token form and differentially tested here through the real render",
